@@ -8,7 +8,7 @@ from .setops import premise_group, bits_for, fnr, built
 
 from ..validate import validation_group
 BOUNDS = {'quick': {'slice length': '0..3', 'range alternatives': '1..2', 'mode': 'hybrid (identifiers abstract, any length)'},
-          'thorough': {'slice length': '0..4', 'range alternatives': '1..3', 'mode': 'hybrid + one concrete group (identifier lists <= 2)'}}
+          'thorough': {'slice length': '0..4 (K <= 3), 0..5 (K <= 2), 0..6 (K = 1)', 'range alternatives': '1..3', 'mode': 'hybrid + one concrete group (identifier lists <= 2)'}}
 OUTSIDE = ['slices longer than the bound', 'reference identity is observed as the element index (the model returns the element value)']
 ASSUMPTIONS = ['Iterator::filter/max/min models are transcriptions of the pinned rust-src (max_by keeps the last maximum, min_by the first minimum)',
                'hybrid mode sound given C04; O-sat as in C03']
@@ -22,6 +22,8 @@ def groups(tier):
         gs.append({'name': 'hybrid-N%d-K%d' % (N, k), 'fn': sat_group, 'args': {'N': N, 'k': k, 'hybrid': True}})
     if tier != 'quick':
         gs.append({'name': 'hybrid-N5-K1', 'fn': sat_group, 'args': {'N': 5, 'k': 1, 'hybrid': True}})
+        gs.append({'name': 'hybrid-N5-K2', 'fn': sat_group, 'args': {'N': 5, 'k': 2, 'hybrid': True}})
+        gs.append({'name': 'hybrid-N6-K1', 'fn': sat_group, 'args': {'N': 6, 'k': 1, 'hybrid': True}})
         gs.append({'name': 'concrete-N2-K1', 'fn': sat_group, 'args': {'N': 2, 'k': 1, 'hybrid': False, 'L': 2}})
     gs.append(validation_group(('max_satisfying',), tier))
     gs.append(premise_group(tier))
